@@ -1195,8 +1195,19 @@ class Facts:
         return res
 
     def closures_of(self, body):
-        pre = body.path + "::{closure#"
-        return [self.bodies[k] for k in self.order if self.bodies[k].path.startswith(pre)]
+        """Closures written in `body`, and those written in the new helpers that were expanded into it (their code runs as part of it)."""
+        owners = [body.path]
+        for _ in range(4):
+            more = [h for (c, h) in (self.inlined or []) if isinstance(h, str) and c in owners and h not in owners and h.startswith("prometheus")]
+            if not more:
+                break
+            owners += more
+        res = []
+        for o in owners:
+            pre = o + "::{closure#"
+            keys = self.order if o == body.path else sorted(self.bodies)       # (expanded helpers and their closures are no longer in `order`)
+            res += [self.bodies[k] for k in keys if self.bodies[k].path.startswith(pre) and self.bodies[k] not in res]
+        return res
 
     def closure(self, defpath):
         return self.bodies.get(defpath)
